@@ -1,5 +1,5 @@
 """C18 — bad configuration is an error, never a crash (hand-written loader functions)."""
-from specs import loaders, loadbalance
+from specs import loaders, loadbalance, accesslog
 
 
 def run(ck):
@@ -14,4 +14,7 @@ def run(ck):
     loadbalance.spec_lb_verify(ck)
     loadbalance.spec_lb_init(ck)
     loadbalance.spec_lb_member_graph(ck)
-    ck.post_filter = lambda o: not o.label.startswith('C17/')
+    ck.plans.append(accesslog.replay_plan)
+    accesslog.spec_log_thread(ck, nevents=3)
+    accesslog.spec_script_formater(ck)
+    ck.post_filter = lambda o: not o.label.startswith('C17/') and not o.label.startswith('C16/')
